@@ -12,6 +12,7 @@ from ..runner import Divergence, Driver, Env, Outcome, Violation, diff_streams
 THEOREMS = [
     "C37_source_shape",
     "C37_invariant",
+    "C37_active_was_picked_here",
     "C37_pick_is_last_pick_event",
     "C37_unique_keys",
     "C37_switch_clears",
@@ -23,16 +24,18 @@ EXPLANATION = (
     "Lean model M16 of llamactl's SQLite configuration: tables environments/profiles (profiles keyed by (name, api_url)), "
     "settings current_environment_api_url/current_profile (a name only), the twelve service operations of "
     "EnvService/AuthService/ConfigManager that change them with their error branches, and a ghost field recording the "
-    "latest select/create event together with the environment current at that moment. C37_invariant: for every "
-    "operation sequence the current environment is known or the default and the active profile is none or a stored "
-    "profile of the current environment that is the latest pick, made while this environment was current "
-    "(induction over op lists); C37_pick_is_last_pick_event defines the ghost from the history alone; "
-    "C37_each_clear_needed shows each of the three clearings is necessary (the delete one is the repair of F26). "
-    "Tie: constants and the three 'clears current_profile' facts are regenerated from the sources (C37_source_shape); "
-    "random op sequences run on the real services over a real SQLite file in a temp dir and on the compiled model, "
-    "comparing result, current environment, pointer, active profile, ghost and both tables after every op. "
-    "Search: the property is checked directly on the real services' answers after every op with the harness's own "
-    "record of select/create events."
+    "latest select/create event together with the environment current at that moment. C37_invariant (induction over op "
+    "lists): after every operation sequence the current environment is known or the default and the active profile is "
+    "none or a stored profile of the current environment whose name is the latest pick, made while this environment was "
+    "current; C37_active_was_picked_here restates it in the property's words (the history contains an operation that "
+    "selected/created that name while the now-current environment was current); C37_pick_is_last_pick_event defines the "
+    "ghost from the history alone; C37_each_clear_needed shows each of the three clearings is necessary (the delete one is "
+    "the repair of F26). Tie: constants and the three 'clears current_profile' facts are regenerated from the sources "
+    "(C37_source_shape); random op sequences run on the real services over a real SQLite file in a temp dir and on the "
+    "compiled model, comparing result, current environment, pointer, active profile, ghost and both tables after every op. "
+    "Search: after every op on the real services - current environment stored or default; active profile belongs to the "
+    "current environment, is a stored row, the latest select/create event was made while the current environment was "
+    "current, and this profile was itself picked at some time (the harness keeps its own record of the events)."
 )
 LEVEL_TEXT = "proof (invariant over all operation sequences) + per-op correspondence on the real SQLite-backed services"
 ASSUMPTIONS = [
@@ -185,6 +188,7 @@ def run_case(case: dict, out: Outcome) -> tuple[list[str], list[str], list[Viola
     default_url = impl["DEFAULT_URL"]
     real = RealConfig()
     lines, impl_out, viols = ["reset"], ["reset"], []
+    cur_before = default_url
     bad_before: set[str] = set()  # rules already violated after the previous op: report a violation where it first appears
     try:
         for i, op in enumerate(case["ops"]):
@@ -201,6 +205,15 @@ def run_case(case: dict, out: Outcome) -> tuple[list[str], list[str], list[Viola
             impl_out.append(res + ";" + real.state_line(obs))
             # ---- (S) the property, stated on the real services' answers
             cur, act, env_rows, prof_rows = obs["cur"], obs["active"], obs["env_rows"], obs["prof_rows"]
+            if op[0] == "env-del" and res == "true" and op[1] == cur_before:
+                out.count("event:deleted-current-env")
+            if op[0] == "delete" and res == "true" and obs["ptr"] is None:
+                out.count("event:deleted-selected-profile")
+            if len({r[1] for r in prof_rows}) < len(prof_rows):
+                out.count("state:same-name-in-several-envs")
+            if act is not None and sum(1 for r in prof_rows if r[1] == act.name) > 1:
+                out.count("state:active-name-also-in-other-env")
+            cur_before = cur.api_url
             known = {r[0] for r in env_rows}
             prefix = {"ops": case["ops"][: i + 1]}
 
@@ -222,10 +235,13 @@ def run_case(case: dict, out: Outcome) -> tuple[list[str], list[str], list[Viola
                          f"active profile {act.name!r} belongs to {act.api_url!r}, current environment is {cur.api_url!r}")
                 elif not any(r[0] == act.id and r[1] == act.name and r[2] == act.api_url for r in prof_rows):
                     flag(f"C37/active_profile_not_stored:after={op[0]}", f"active profile {act.name!r} is not a stored profile row")
-                elif real.pick != (act.name, cur.api_url):
-                    flag(f"C37/active_not_picked_in_current_env:after={op[0]}",
-                         f"active profile {act.name!r} of {cur.api_url!r} was not selected or created while that environment was "
-                         f"current: latest select/create event is {real.pick!r}")
+                elif real.pick is None or real.pick[1] != cur.api_url:
+                    flag(f"C37/selection_from_other_env:after={op[0]}",
+                         f"active profile {act.name!r} of {cur.api_url!r}: the latest select/create event {real.pick!r} was made while "
+                         f"another environment was current, so this profile was not picked here")
+                elif act.id not in real.picked_ids and (act.name, act.api_url) not in real.picked_dangling:
+                    flag(f"C37/active_profile_never_picked:after={op[0]}",
+                         f"active profile {act.name!r} of {cur.api_url!r} was never selected or created while that environment was current")
             else:
                 out.count("active:none")
             bad_before = bad_now
@@ -266,6 +282,8 @@ def run(env: Env) -> Outcome:
     ]
     cases += corpus
     n = env.budget(220, 5000)
+    if env.deep:
+        n = min(n, 2500)  # widened search after a broken proof/correspondence: bounded
     cases += [gen_case(env.rng, urls, names) for _ in range(n)]
     all_lines: list[str] = []
     all_impl: list[str] = []
